@@ -93,5 +93,18 @@ def twin_tracker(v1: int, v2: int) -> bool:
     return d._data == v1          # false whenever the later update is larger
 
 
-SPLITS = {'lemma_tracker_4': ('k1', 4), 'lemma_tracker_5_adds_updates': ('k3', 4), 'lemma_tracker_6': ('k1', 4)}
+def twin_tracker_split(k1: int, v1: int, v2: int) -> bool:
+    """
+    pre: 0 <= k1 <= 1 and 0 <= v1 <= 40 and 0 <= v2 <= 40
+    post: __return__
+    """
+    # vacuity twin of the partitioned lemmas (goes through the same partitioning): false whenever the later update is larger
+    t = Tracker()
+    d = t.add(v1 + k1)
+    t.update(v2)
+    t.pop_level()
+    return d._data == v1 + k1
+
+
+SPLITS = {'twin_tracker_split': ('k1', 2), 'lemma_tracker_4': ('k1', 4), 'lemma_tracker_5_adds_updates': ('k3', 4), 'lemma_tracker_6': ('k1', 4)}
 THOROUGH_ONLY = ['lemma_tracker_6']
